@@ -8,3 +8,24 @@ a = s.index("<!-- SENS-TABLE-BEGIN -->") + len("<!-- SENS-TABLE-BEGIN -->\n")
 b = s.index("<!-- SENS-TABLE-END -->")
 open(p, "w").write(s[:a] + table + s[b:])
 print("table rows:", table.count("\n") - 2)
+
+import json
+d = json.load(open(os.path.join(V, "evidence", "selftest-sensitivity.json")))
+res = d["results"]
+quick = [r for r in res if r["caught"] and r.get("tier") != "thorough"]
+thorough = [r for r in res if r["caught"] and r.get("tier") == "thorough"]
+equiv = [r for r in res if not r["caught"] and r.get("equivalent")]
+missed = [r for r in res if not r["caught"] and not r.get("equivalent")]
+own = [r for r in res if not r["mutant"].startswith("seeded/")]
+seeded = [r for r in res if r["mutant"].startswith("seeded/")]
+text = ("Of the %d seeded changes (%d mine, %d from sub-agents), %d are reported by the *quick* tier of their property and "
+        "%d more by its thorough tier (%s), each with a minimised replay file that reproduces in a fresh process; %d are "
+        "listed in `mutants/EQUIVALENT.json` as not violating the property as worded (reasons in the table); %d are missed%s.\n"
+        % (len(res), len(own), len(seeded), len(quick), len(thorough),
+           ", ".join("`%s`" % r["mutant"] for r in thorough) or "none", len(equiv), len(missed),
+           (": " + ", ".join("`%s`" % r["mutant"] for r in missed)) if missed else ""))
+s = open(p).read()
+a = s.index("<!-- SENS-SUMMARY-BEGIN -->") + len("<!-- SENS-SUMMARY-BEGIN -->\n")
+b = s.index("<!-- SENS-SUMMARY-END -->")
+open(p, "w").write(s[:a] + text + s[b:])
+print(text)
